@@ -36,8 +36,8 @@ class C15(Prop):
         "domain must appear on the wire as given; (d) walk follow-up requests echo the agent's OID (arcs to 2^32-1). non-trivial = at least one "
         "echoed INTEGER outside -128..127 or a multi-octet arc; distinct = set of echoed values"
     )
-    quick_runs = 1500
-    thorough_runs = 30000
+    quick_runs = 8000
+    thorough_runs = 200000
 
     def families(self, tier):
         return [("echo", 4), ("echo-sweep", 3), ("maxrep", 2), ("oid-echo", 2)]
